@@ -936,62 +936,8 @@ Proof.
 Qed.
 
 (* ------------------------------------------------------------------------- *)
-(** * Defaults.  The reference's own documents carry no namespace declaration at all,
-      so every conformant raw request — each attribute absent or written out — reaches
-      the backend as the request it denotes. *)
-
-Lemma existsb_false {A} (f : A -> bool) l : (forall x, In x l -> f x = false) -> existsb f l = false.
-Proof. induction l; simpl; intros H; auto. rewrite H, IHl; auto. Qed.
-
-Lemma write_tm_nc t : collides (write_tm t) = false.
-Proof.
-  unfold write_tm. cbn [collides]. destruct t as [s ng mt]. cbn [xt_negate xt_match xt_text].
-  unfold text_kid. destruct ng, mt, (str_empty s); reflexivity.
-Qed.
-
-Lemma write_param_nc p : collides (write_param p) = false.
-Proof.
-  unfold write_param. cbn [collides]. replace (attr_collides _ _) with false by reflexivity. cbn [orb].
-  destruct (xp_cond p); cbn [existsb]; rewrite ?write_tm_nc; reflexivity.
-Qed.
-
-Lemma existsb_map_nc {A} (f : A -> xtree) l : (forall x, collides (f x) = false) -> existsb collides (map f l) = false.
-Proof. intros H. induction l; simpl; auto. rewrite H, IHl. reflexivity. Qed.
-
-Lemma write_pf_nc f : collides (write_pf f) = false.
-Proof.
-  unfold write_pf. cbn [collides].
-  replace (attr_collides _ _) with false by (destruct (xf_test f); reflexivity). cbn [orb].
-  destruct (xf_cond f); [reflexivity|]. rewrite existsb_app.
-  rewrite (existsb_map_nc write_tm _ write_tm_nc), (existsb_map_nc write_param _ write_param_nc). reflexivity.
-Qed.
-
-Lemma write_item_nc i : collides (write_item i) = false.
-Proof.
-  destruct i as [d|n]; [|reflexivity]. unfold write_item, write_data. cbn [collides].
-  replace (attr_collides _ _) with false by reflexivity. cbn [orb].
-  destruct d; [reflexivity|]. apply existsb_map_nc. intros; reflexivity.
-Qed.
-
-Lemma write_sel_nc s : existsb collides (write_sel s) = false.
-Proof.
-  destruct s; try reflexivity. cbn [write_sel existsb collides].
-  replace (attr_collides _ _) with false by reflexivity. cbn [orb].
-  rewrite (existsb_map_nc write_item _ write_item_nc). reflexivity.
-Qed.
-
-Lemma rfc_write_raw_nc x : collides (rfc_write_raw x) = false.
-Proof.
-  destruct x as [q|m]; cbn [rfc_write_raw].
-  - unfold write_query. cbn [collides]. replace (attr_collides _ _) with false by reflexivity. cbn [orb].
-    rewrite !existsb_app, write_sel_nc. cbn [orb existsb collides].
-    replace (attr_collides (attr_fields (C "filter")) _) with false by (destruct (xq_test q); reflexivity).
-    cbn [orb]. rewrite (existsb_map_nc write_pf _ write_pf_nc). cbn [orb].
-    destruct (xq_limit q) as [s|]; [|reflexivity]. unfold write_limit, text_kid. destruct (str_empty s); reflexivity.
-  - unfold write_multiget. cbn [collides]. replace (attr_collides _ _) with false by reflexivity. cbn [orb].
-    rewrite existsb_app, write_sel_nc. cbn [orb]. apply existsb_map_nc.
-    intros h. unfold text_kid. destruct (str_empty h); reflexivity.
-Qed.
+(** * Defaults.  Every conformant raw request — each attribute absent or written out —
+      reaches the backend as the request it denotes. *)
 
 Theorem server_denotes_raw up path x r c :
   validate x = Some r -> limit_fits r = true -> backend_call_of up path r = Some c ->
